@@ -66,6 +66,8 @@ def run(ctx):
                 ctx.nontrivial_add((i, tuple(seq)))
     ctx.sample({'formats_en': R.offered('en'), 'formats_ja': R.offered('ja')})
     ctx.traces = ctx.evaluations
+    import cli_common
+    cli_common.cli_suite(ctx, ctx.budget(12, 120), formats=['auto_extended', 'conll', 'json', 'xml', 'jigg_xml'])      # the same through the command line itself
     common.conclude(ctx)
 
 
